@@ -457,8 +457,7 @@ func (vc *VC) trCall(e *ECall, env *specEnv, c *Clause) sval {
 				return intv(fmt.Sprintf("(slen %s)", x.term))
 			case *types.Map:
 				d, _ := vc.mapKeys(t)
-				f := vc.declareFun("maplen", []string{"(Array Int Bool)"}, "Int")
-				return intv(fmt.Sprintf("(%s (select %s %s))", f, env.st.get(d), x.term))
+				return intv(fmt.Sprintf("(maplen (select %s %s))", env.st.get(d), x.term))
 			}
 		}
 		vc.specFail(c, "len of %s", e.Args[0])
